@@ -324,9 +324,10 @@ class TCPClient:
                 raise
         try:
             stream = IOStream(socket_obj, max_buffer_size=max_buffer_size)
-        except OSError as e:
-            fu: Future[IOStream] = Future()
-            fu.set_exception(e)
-            return stream, fu
+        except OSError:
+            # There is no stream to hand back; close the socket and let
+            # the connector count this as a failed attempt.
+            socket_obj.close()
+            raise
         else:
             return stream, stream.connect(addr)
